@@ -150,6 +150,47 @@ theorem cursor_loop_bounded (d : List Nat) (f : Cur → Cur)
     hdec (d.length + 1) c0 trivial (by omega)
   exact ⟨evs, he, hl, not_trapped step (fun _ => True) (fun _ _ => trivial) hnt _ _ _ trivial he⟩
 
+/-! ## `ComputedArray` -/
+
+/-- **`ComputedArray::get` honours `len()`**: `get(i) = Ok` implies `i < len()`, and the item lies
+wholly inside the data (`off + item_len ≤ data.len()`); in particular an array of zero-sized items
+(`len() == 0`) answers no index, so `while let Some(x) = array.get(i)` loops (the traversal array
+printer) end after at most `len()` items. -/
+theorem computedGet_lt_len (dataLen itemLen idx off : Nat) (h : compGet dataLen itemLen idx = some off) :
+    idx < compLen dataLen itemLen ∧ off = idx * itemLen ∧ off + itemLen ≤ dataLen := by
+  unfold compGet at h
+  by_cases hge : idx ≥ compLen dataLen itemLen
+  · simp [hge] at h
+  · simp only [hge, if_false] at h
+    unfold checkedMul at h
+    split at h
+    · cases h
+    · rename_i o ho
+      split at ho
+      · injection ho with ho
+        subst ho
+        split at h
+        · injection h with h
+          refine ⟨by omega, h.symm, ?_⟩
+          subst h
+          unfold compLen at hge
+          by_cases hz : itemLen = 0
+          · simp [hz] at hge
+          · simp only [hz, if_false] at hge
+            have hlt : idx < dataLen / itemLen := by omega
+            have hpos : 0 < itemLen := Nat.pos_of_ne_zero hz
+            have h1 : (idx + 1) * itemLen ≤ dataLen := by
+              have := Nat.mul_le_of_le_div itemLen (idx + 1) dataLen (by omega)
+              simpa using this
+            have : (idx + 1) * itemLen = idx * itemLen + itemLen := Nat.succ_mul idx itemLen
+            omega
+        · cases h
+      · cases ho
+
+/-- no index is answered when the item size is zero -/
+theorem computedGet_zero_item (dataLen idx : Nat) : compGet dataLen 0 idx = none := by
+  simp [compGet, compLen]
+
 /-! ## VARC -/
 
 /-- **`VarcComponentIter` terminates within one component per byte**: for every glyph record `d`
@@ -329,6 +370,8 @@ example : (charsetTrace (.ranges [(10, 2), (40, 0)]) 100).map items =
 example : fdSelectRanges [(0, 7), (10, 8)] 9 = some 7 := by decide
 example : fdSelectRanges [(5, 7), (10, 8)] 3 = some 7 := by decide
 example : lookup2 [(9, 5, 77)] 7 = some 77 := by decide
+
+example : compGet 7 2 2 = some 4 ∧ compGet 7 2 3 = none := by decide
 
 /-- the hypothesis of `cursor_loop_bounded` is satisfiable: a one-byte read -/
 example (d : List Nat) (hlen : d.length ≤ MAXU) : ∀ c : Cur, c.pos < d.length → c.pos < (c.read d 1).2.pos := by
